@@ -33,6 +33,8 @@ def gen_case(rng, root):
         if k < 0.1: return "{{TOC}}"
         if k < 0.15: return "{{" + "x" * rng.choice([997, 998, 999, 1000, 1001]) + "}}"
         if k < 0.2: return "{{unterminated"
+        if k < 0.23: return "{{ " + "y" * rng.choice([990, 1005, 1440]) + " "      # a stray opener: the span up to the next marker's }} is too long to be a file name
+
         if k < 0.3: return "{{%s/%s}}" % (root, tgt)                       # absolute
         if k < 0.45 and "." in tgt.split("/")[-1]:
             base = tgt.rsplit(".", 1)[0]
